@@ -129,6 +129,14 @@ def opMV (C : Ctx) (name : String) (args : List String) : Option String := do
   | "cup", [a] => some (showMV (C.cUp (← parseMV a)))
   | "chomo", [a] => some (showExc (C.cHomo (← parseMV a)))
   | "cdown", [a] => some (showExc (C.cDown (← parseMV a)))
+  | "jadds", [a, q] => some (showMV (C.jAddScalar (← parseMV a) (← parseRat q)))
+  | "jsubs", [a, q] => some (showMV (C.jSubScalar (← parseMV a) (← parseRat q)))
+  | "jrsubs", [q, a] => some (showMV (C.jRSubScalar (← parseRat q) (← parseMV a)))
+  | "jmuls", [a, q] => some (showMV (C.jMulScalar (← parseMV a) (← parseRat q)))
+  | "jors", [a, q] => some (showMV (C.jOrScalar (← parseMV a) (← parseRat q)))
+  | "jpow", [n, a] => some (showMV (C.jPow (← parseMV a) (← n.toNat?)))
+  | "jcall", [gs, a] => some (showMV (C.jCall (← parseNats gs) (← parseMV a)))
+  | "sdiv", [a, q] => some (showMV (C.sdiv (← parseMV a) (← parseRat q)))
   | "revsigns", [] => some (showInts C.revSigns.toList)
   | "gisigns", [] => some (showInts C.giSigns.toList)
   | "lcompsigns", [] => some (showInts C.leftCompSigns.toList)
